@@ -28,6 +28,43 @@ class Unsupported(Exception):
     pass
 
 
+# ------------------------------------------------------------------ parent-free copies / fast resolution
+def clone(e):
+    """Copy of an expression without the loader's `_parent` links (copy.deepcopy would follow them and copy
+    the whole module)."""
+    return ast.parse(ast.unparse(e), mode="eval").body
+
+
+class _Subst(ast.NodeTransformer):
+    def __init__(self, mapping):
+        self.mapping = mapping
+
+    def visit_Name(self, node):
+        if isinstance(node.ctx, ast.Load) and node.id in self.mapping:
+            return clone(self.mapping[node.id])
+        return node
+
+
+def fast_subst(expr, mapping):
+    return _Subst(mapping).visit(clone(expr))
+
+
+def fast_resolve(b, expr, at, keep=(), depth=8):
+    """Same result as sym.Bindings.resolve(expr, at=at, keep=keep), built from Bindings.reaching() but
+    with parent-free copies (local version: sym.py is shared and must not be edited)."""
+    if depth <= 0:
+        return clone(expr)
+    mapping = {}
+    for n in sorted(au.names(expr)):
+        if n in keep:
+            continue
+        d = b.reaching(n, at)
+        if d is not None and n not in au.names(d):
+            mapping[n] = fast_resolve(b, d, b._last_def_stmt, keep, depth - 1)
+    e = clone(expr)
+    return _Subst(mapping).visit(e) if mapping else e
+
+
 # ------------------------------------------------------------------ polynomial helpers
 def psubst(P, atom, Q):
     out = Poly()
@@ -249,12 +286,12 @@ class GridFn:
 
     def resolved(self, expr, at, run, loops=None):
         keep = tuple(self.mesh) + tuple(self._all_handles())
-        e = self.b.resolve(expr, at=at, keep=keep)
-        e = FoldSwitch(run.env).visit(copy.deepcopy(e))
+        e = fast_resolve(self.b, expr, at, keep)
+        e = FoldSwitch(run.env).visit(e)
         if loops is not None:
             cs = {n for n in au.names(e) if n in self.counters()}
             if cs:
-                e = sym.subst(e, {n: self.counter_value(n, at, loops, run) for n in cs})
+                e = fast_subst(e, {n: self.counter_value(n, at, loops, run) for n in cs})
         return e
 
     # ---------------------------------------------------------------- running counters (k = 0 ... k += 1)
@@ -265,9 +302,25 @@ class GridFn:
             return self._counters
         out = {}
         inits, augs, other = {}, {}, set()
+        def self_increment(st):
+            """`k = k + c` / `k = c + k` -> c"""
+            if isinstance(st, ast.Assign) and len(st.targets) == 1 and isinstance(st.targets[0], ast.Name) \
+                    and isinstance(st.value, ast.BinOp) and isinstance(st.value.op, ast.Add):
+                k = st.targets[0].id
+                l, r = st.value.left, st.value.right
+                if isinstance(l, ast.Name) and l.id == k and isinstance(au.const(r), int):
+                    return au.const(r)
+                if isinstance(r, ast.Name) and r.id == k and isinstance(au.const(l), int):
+                    return au.const(l)
+            return None
+        steps = {}
         for st in au.stmts(self.fn.body):
             if isinstance(st, ast.AugAssign) and isinstance(st.target, ast.Name):
                 augs.setdefault(st.target.id, []).append(st)
+                steps[id(st)] = au.const(st.value) if isinstance(st.op, ast.Add) else None
+            elif self_increment(st) is not None:
+                augs.setdefault(st.targets[0].id, []).append(st)
+                steps[id(st)] = self_increment(st)
             elif isinstance(st, (ast.For, ast.AsyncFor)):
                 other |= set(au.assigned_names(st.target))
             else:
@@ -282,8 +335,8 @@ class GridFn:
             if n in other or n in self.params or len(a) != 1 or len(inits.get(n, [])) != 1:
                 continue
             st = a[0]
-            step = au.const(st.value)
-            if not isinstance(st.op, ast.Add) or not isinstance(step, int):
+            step = steps.get(id(st))
+            if not isinstance(step, int):
                 continue
             out[n] = (inits[n][0], au.const(inits[n][0].value), st, step)
         self._counters = out
@@ -309,9 +362,9 @@ class GridFn:
         for m, l in enumerate(loops):
             if not l.var:
                 raise Unsupported(f"counter {name} advanced in a value loop")
-            term = ast.BinOp(ast.Name(l.var, ast.Load()), ast.Sub(), copy.deepcopy(l.lo_e))
+            term = ast.BinOp(ast.Name(l.var, ast.Load()), ast.Sub(), clone(l.lo_e))
             for l2 in loops[m + 1:]:
-                term = ast.BinOp(term, ast.Mult(), copy.deepcopy(l2.trip_e))
+                term = ast.BinOp(term, ast.Mult(), clone(l2.trip_e))
             e = ast.BinOp(e, ast.Add(), ast.BinOp(ast.Constant(step), ast.Mult(), term))
         before = [id(x) for x in blk].index(id(aug)) < [id(x) for x in blk].index(id(at_st))
         if before:
@@ -490,7 +543,7 @@ class GridFn:
                 continue
             for var, op, bexpr in cons:
                 try:
-                    bp = sym.to_poly(self.b.resolve(bexpr, at=em.stmt), opaque=True)
+                    bp = sym.to_poly(fast_resolve(self.b, bexpr, em.stmt), opaque=True)
                 except Exception:
                     exact = False
                     continue
@@ -529,7 +582,44 @@ class GridFn:
                 c = c * l.trip
         return c
 
+    def running_vnow(self, em, run):
+        """|V| at the emitting statement when it sits in the loop nest that appends the vertices:
+        base + (completed iterations) * n + (n if the append precedes the statement)."""
+        sites = [v for v in run.vsites if v.loops and em.loops and v.loops[0].node is em.loops[0].node]
+        if len(sites) != 1:
+            raise Unsupported("len(vertices) read in a loop with several vertex appends")
+        v = sites[0]
+        if [id(l.node) for l in v.loops] != [id(l.node) for l in em.loops] or any(not l.var for l in v.loops):
+            raise Unsupported("len(vertices) read at another depth than the vertex append")
+        blk, _ = au.enclosing_block(v.stmt)
+        anchor = em.stmt
+        while anchor is not None and blk is not None and not any(x is anchor for x in blk):
+            anchor = au.parent(anchor)
+            if isinstance(anchor, (ast.For, ast.While, ast.FunctionDef)):
+                anchor = None
+        if blk is None or anchor is None:
+            raise Unsupported("len(vertices) read outside the block of the vertex append")
+        P = nest_base(self, run, v)
+        for m, l in enumerate(v.loops):
+            term = Poly.atom(l.var) - l.lo
+            for l2 in v.loops[m + 1:]:
+                term = term * l2.trip
+            P = P + term.scale(v.n)
+        ids = [id(x) for x in blk]
+        if ids.index(id(v.stmt)) < ids.index(id(anchor)):
+            P = P + v.n
+        return P
+
+    def vnow_of(self, em, run):
+        if em.vnow is None and em.loops and not hasattr(em, "_vnow"):
+            try:
+                em._vnow = self.running_vnow(em, run)
+            except Unsupported:
+                em._vnow = None
+        return em.vnow if em.vnow is not None else getattr(em, "_vnow", None)
+
     def index_polys(self, em, run):
+        em.vnow = self.vnow_of(em, run)
         return [self.poly(x, em.stmt, run, vnow=em.vnow, loops=em.loops) for x in em.idx]
 
     def index_expr(self, em, k, run):
@@ -600,6 +690,13 @@ class GridFn:
             return env[key]
         raise Unsupported(f"cannot evaluate `{au.src(e)}`")
 
+    def _guard_expr(self, test, em):
+        cache = self.__dict__.setdefault("_gcache", {})
+        k = (id(test), id(em.stmt))
+        if k not in cache:
+            cache[k] = fast_resolve(self.b, test, em.stmt)
+        return cache[k]
+
     def param_atoms(self, em, run):
         ats = set(run.V.atoms())
         for l in em.loops:
@@ -609,9 +706,9 @@ class GridFn:
             e = self.resolved(x, em.stmt, run, em.loops)
             ats |= {n for n in value_names(e) if n not in lv and n not in self.mesh}
         for test, pol, cons in em.guards:
-            ats |= {n for n in value_names(self.b.resolve(test, at=em.stmt)) if n not in lv}
+            ats |= {n for n in value_names(fast_resolve(self.b, test, em.stmt)) if n not in lv}
         if em.vnow is not None:
-            ats |= em.vnow.atoms()
+            ats |= {a for a in em.vnow.atoms() if a not in lv}
         return sorted(a for a in ats if a not in run.modinfo)
 
     def iterate(self, em, run, penv):
@@ -619,7 +716,7 @@ class GridFn:
         def rec(k, env):
             if k == len(em.loops):
                 for test, pol, cons in em.guards:
-                    if bool(self.ceval(self.b.resolve(test, at=em.stmt), env, em.vnow)) != pol:
+                    if bool(self.ceval(self._guard_expr(test, em), env, em.vnow)) != pol:
                         return
                 yield env
                 return
@@ -777,11 +874,32 @@ def stride_witness(g, run, nest, em, k, coeff, expected):
     for penv in g.param_envs(g.param_atoms(em, run), mins):
         if differs(penv):
             try:
-                return (f"{fmt_env(penv)}: stride {coeff.eval(penv)} but a row holds {expected.eval(penv)} vertices "
-                        f"(the index addresses a vertex of another row/column)")
+                return (f"{fmt_env(penv)}: the index advances by {coeff.eval(penv)} per step where the vertex numbering advances by "
+                        f"{expected.eval(penv)} (the index addresses a vertex of another row/column)")
             except KeyError:
                 break
     return None
+
+
+def attr_key_check(g, run, nest, em, P):
+    """A vertex-attribute key written in the iteration that appends a vertex must be that vertex's index.
+    -> (applicable, ok, expected polynomial, witness text)"""
+    vsite, outer, inner = nest
+    same = len(em.loops) == 2 and em.loops[0].node is outer.node and em.loops[1].node is inner.node
+    if not same:
+        return False, True, None, ""
+    want = nest_base(g, run, vsite) + (Poly.atom(outer.var) - outer.lo) * inner.trip + (Poly.atom(inner.var) - inner.lo)
+    if P == want:
+        return True, True, want, ""
+    try:
+        for penv in g.param_envs(g.param_atoms(em, run), g.mins_for(em, run)):
+            for env in g.iterate(em, run, penv):
+                if P.eval(env) != want.eval(env):
+                    return True, False, want, (f"witness {fmt_env(penv)}: at iteration ({outer.var}={env[outer.var]}, {inner.var}={env[inner.var]}) "
+                                               f"vertex {want.eval(env)} is appended but key {P.eval(env)} is written")
+    except (Unsupported, KeyError):
+        pass
+    return True, True, want, ""   # differs syntactically only (mod atoms ...): no concrete witness, no alarm
 
 
 # ------------------------------------------------------------------ literal tables
